@@ -211,6 +211,37 @@ def decl_order(F, rep):
             rep.ob("DECL-ORDER", "Resolver::statement|Definition|global", bool(looks),
                    "top-level definitions resolve to the pre-registered global of that name", line_of(top))
     rep.floor("DECL-ORDER", "Definition arm", 1 if found else 0, 1)
+    annotation_before_binder(F, rep)
+
+
+def annotation_before_binder(F, rep):
+    """a type annotation is resolved by looking its names up on the scope stack; the binder it annotates (and, for a
+    function, its parameters) must not be on the stack yet, or `A : A = 1` / `fn A: A -> ..` resolve the *type* A to the
+    variable being declared and the annotation silently stops meaning the declaration A"""
+    TYFNS = {R + "ty", R + "type_vec", R + "ty_assignable"}
+    for fname, enum, variants in (("statement", "sylt_parser::statement::StatementKind", ("Definition",)),
+                                  ("expression", "sylt_parser::expression::ExpressionKind", ("Function",))):
+        fn = F.fn(R + fname)
+        for m in matches_on(fn_body(fn), enum):
+            for arm, alt, vp in arm_alternatives(m):
+                if not vp or last(vp) not in variants:
+                    continue
+                seq = []
+                for n in nodes(arm["body"]):
+                    if n.get("k") in ("Call", "MethodCall"):
+                        c = callee(n)
+                        if c == R + "push_var":
+                            seq.append(("push", n))
+                        elif c in TYFNS:
+                            seq.append(("ty", n))
+                first_push = next((i for i, x in enumerate(seq) if x[0] == "push"), None)
+                late = [x[1] for i, x in enumerate(seq) if x[0] == "ty" and first_push is not None and i > first_push]
+                n_ty = len([x for x in seq if x[0] == "ty"])
+                rep.ob("DECL-ORDER", "Resolver::%s|%s|annotation-before-binder" % (fname, last(vp)), n_ty > 0 and not late,
+                       ("the %d type resolution(s) of a %s happen before any of its binders is pushed" % (n_ty, last(vp))) if n_ty and not late else
+                       ("a type annotation of a %s is resolved after `push_var`: the annotation can see the variable it annotates "
+                        "(`A : A = 1`, `fn A: A -> ..`), so a type name equal to the binder's name resolves to the binder" % last(vp)),
+                       line_of(late[0]) if late else line_of(arm))
 
 
 def visit_resolver(F, rep):
